@@ -18,6 +18,9 @@ func init() {
 			seed = 1
 		}
 		spec := gen.Spec{Seed: seed, Index: i, Hostile: i%3 != 0, Tests: i%2 == 0, Excluded: i%4 == 1, Impl: i%5 == 0, PerPair: 12}
+		if os.Getenv("VERIF_EXOTIC") != "" {
+			spec.Exotic = true
+		}
 		if os.Getenv("VERIF_TWIN") != "" {
 			spec = gen.Spec{Seed: seed + 6000, Index: i, Hostile: i%2 == 0, Impl: i%3 == 0, PerPair: 6, Twin: true, Transit: true, Unrelated: true}
 		}
